@@ -164,7 +164,12 @@ v("sources-order", ["C14"], CPU, "        sources = headers + cls_sources + sour
 # ------------------------------------------------------------------ hybrid / json / pickle (C18 C19 C20)
 HY = "hybrid_class.py"
 v("hy-movable", ["C18"], HY, "            dressed_new._movable = False\n", "", rule="H2")
-v("hy-restore-xobject", ["C18"], HY, "            # Restore correct _xobject\n            dressed_new._xobject = getattr(container._xobject, self.name)\n", "", rule="H2")
+REDRESS = "            dressed_new._reinit_from_xobject(\n                _xobject=getattr(container._xobject, self.name)\n            )\n"
+v("hy-restore-xobject", ["C18"], HY, REDRESS, "", rule="H2", note="neither _xobject nor the nested parts are restored after the __dict__ copy")
+v("hy-restore-xobject-only", ["C18"], HY, REDRESS, "            dressed_new._xobject = getattr(container._xobject, self.name)\n", rule="H6", note="PF22 twin: nested dressed parts keep viewing the assigned object")
+v("hy-reinit-copy-all-but-xobject", ["C18"], HY, "                        if kk not in vv.__dict__.keys():\n", "                        if kk != \"_xobject\":\n", rule="H6", note="seeded C18-a in one line")
+v("hy-benign-skip-bound", ["C18"], HY, "                        if kk not in vv.__dict__.keys():\n", "                        if kk not in vv.__dict__:\n", expect="silent")
+
 v("hy-move-refs", ["C18"], HY, "        if self._xobject._has_refs and not self._force_moveable:", "        if self._xobject._has_refs and self._force_moveable:", rule="H1")
 v("hy-raise-late", ["C18"], HY, "            if (\n                isinstance(getattr(container._XoStruct, self.name).ftype, Ref)\n                and value._buffer is not container._buffer\n            ):\n                raise MemoryError(\n                    \"Cannot make a reference to an object in \"\n                    \"a different buffer.\"\n                )\n", "", rule=None)
 v("hy-reinit-name", ["C18"], HY, "                pyname = self._rename.get(ff.name, ff.name)\n                setattr(self, pyname, vv)", "                setattr(self, ff.name, vv)", rule="H4")
@@ -175,6 +180,18 @@ v("getstate-alias", ["C20"], CTX, "        state = self.__dict__.copy()\n       
 v("getstate-order", ["C20"], STR, "        return self._buffer, self._offset\n", "        return self._offset, self._buffer\n", rule="P1")
 v("ctx-setstate-nobuffers", ["C20"], CPU, "    def __setstate__(self, state):\n        self.__dict__.update(state)\n        self._buffers = weakref.WeakSet()\n\n\nclass BufferByteArray", "    def __setstate__(self, state):\n        self.__dict__.update(state)\n\n\nclass BufferByteArray", rule="P1")
 v("todict-benign-all", ["C19", "C18"], HY, "            elif np.any(defaults.get(obj._inverse_rename.get(ff, ff)) != vv):", "            elif not np.all(defaults.get(obj._inverse_rename.get(ff, ff)) == vv):", expect="silent")
+
+# ---- order-type model of free() (FM): other shapes of the merge pass, decided as a whole
+MERGE = "        pch = self.chunks[0]\n        newchunks = [pch]\n        for ch in self.chunks[1:]:\n            if pch.overlaps(ch):\n                pch.merge(ch)\n            else:\n                newchunks.append(ch)\n                pch = ch\n        self.chunks = newchunks\n"
+v("merge-benign-lastelem", ["C12", "C04"], CTX, MERGE, "        merged = self.chunks[:1]\n        for ch in self.chunks[1:]:\n            if merged[-1].overlaps(ch):\n                merged[-1].merge(ch)\n            else:\n                merged.append(ch)\n        self.chunks = merged\n", expect="silent", note="same algorithm, predecessor = last kept element")
+v("merge-pairwise-old-list", ["C12", "C04"], CTX, MERGE, "        newchunks = self.chunks[:1]\n        for pch, ch in zip(self.chunks, self.chunks[1:]):\n            if pch.overlaps(ch):\n                pch.merge(ch)\n            else:\n                newchunks.append(ch)\n        self.chunks = newchunks\n", rule="FM", note="predecessor taken from the old list: a chunk merged into an absorbed chunk is lost")
+v("merge-no-pass", ["C12"], CTX, MERGE, "        pass\n", rule="FM", note="no coalescing at all")
+v("merge-first-only", ["C12"], CTX, "                newchunks.append(ch)\n                pch = ch\n", "                newchunks.append(ch)\n", rule="FM", note="predecessor never advances: only merges into the first chunk")
+v("free-insert-after", ["C12", "C04"], CTX, "                    self.chunks.insert(ic, nch)\n                    break", "                    self.chunks.insert(ic + 1, nch)\n                    break", rule=None, note="list no longer sorted")
+v("free-benign-bisect", ["C12", "C04"], CTX, "            for ic, ch in enumerate(self.chunks):\n                if offset <= ch.start:\n                    self.chunks.insert(ic, nch)\n                    break", "            ic = 0\n            for ch in self.chunks:\n                if ch.start < offset:\n                    ic += 1\n            self.chunks.insert(ic, nch)", expect="silent", note="insertion index computed by counting")
+# ---- shared handle caches (M3)
+v("update-inplace-cache", ["C09", "C10"], STR, "            self._offsets = {\n                field.index: Int64._from_buffer(\n                    self._buffer, self._offset + field.offset\n                )\n                for field in self._d_fields\n            }", "            for field in self._d_fields:\n                self._offsets[field.index] = Int64._from_buffer(\n                    self._buffer, self._offset + field.offset\n                )", rule="M3", note="PF21 twin: in-place edit of a dict shared with the source of a copy")
+v("update-benign-rebind-loop", ["C09", "C10", "C06"], STR, "            self._offsets = {\n                field.index: Int64._from_buffer(\n                    self._buffer, self._offset + field.offset\n                )\n                for field in self._d_fields\n            }", "            fresh = {}\n            for field in self._d_fields:\n                fresh[field.index] = Int64._from_buffer(\n                    self._buffer, self._offset + field.offset\n                )\n            self._offsets = fresh", expect="silent", note="rebinding through a local dict")
 
 out = os.path.join(os.path.dirname(os.path.abspath(__file__)), "variants.json")
 ids = [x["id"] for x in V]
